@@ -162,15 +162,13 @@ pub fn to_str(v: &Value) -> String {
     }
 }
 
-/// White space on which ECMAScript (StrWhiteSpaceChar) and Rust (`char::is_whitespace`) agree.
-fn ws_both(c: char) -> bool {
+/// ECMAScript StrWhiteSpaceChar (WhiteSpace + LineTerminator): the statements say "JavaScript's
+/// string-to-number rules", so this set is authoritative - it contains U+FEFF and does not
+/// contain U+0085 (Rust's `char::is_whitespace` differs on exactly these two).
+fn ws_es(c: char) -> bool {
     matches!(c,
         '\u{9}' | '\u{A}' | '\u{B}' | '\u{C}' | '\u{D}' | ' ' | '\u{A0}' | '\u{1680}'
-        | '\u{2000}'..='\u{200A}' | '\u{2028}' | '\u{2029}' | '\u{202F}' | '\u{205F}' | '\u{3000}')
-}
-/// Code points that only one of the two definitions treats as white space.
-fn ws_disputed(c: char) -> bool {
-    c == '\u{85}' || c == '\u{FEFF}'
+        | '\u{2000}'..='\u{200A}' | '\u{2028}' | '\u{2029}' | '\u{202F}' | '\u{205F}' | '\u{3000}' | '\u{FEFF}')
 }
 
 #[derive(Debug, Clone, Copy, PartialEq)]
@@ -250,13 +248,7 @@ fn scan_decimal(cs: &[char]) -> Option<(usize, f64)> {
 
 /// ECMAScript StringToNumber (the `Number(s)` conversion). NaN = not numeric.
 pub fn string_to_number(s: &str) -> SN {
-    let t_both = s.trim_matches(ws_both);
-    let t_any = s.trim_matches(|c| ws_both(c) || ws_disputed(c));
-    if t_both != t_any {
-        // iterate: disputed and agreed white space may alternate
-        return SN::Unj("white space set differs between Rust and ECMAScript (U+0085 / U+FEFF)");
-    }
-    let t = t_both;
+    let t = s.trim_matches(ws_es);
     if t.is_empty() {
         return SN::Num(0.0);
     }
@@ -293,12 +285,7 @@ pub fn string_to_number(s: &str) -> SN {
 
 /// ECMAScript parseFloat on a string. NaN = no numeric prefix.
 pub fn parse_float_js(s: &str) -> SN {
-    let t_both = s.trim_start_matches(ws_both);
-    let t_any = s.trim_start_matches(|c| ws_both(c) || ws_disputed(c));
-    if t_both != t_any {
-        return SN::Unj("white space set differs between Rust and ECMAScript (U+0085 / U+FEFF)");
-    }
-    let cs: Vec<char> = t_both.chars().collect();
+    let cs: Vec<char> = s.trim_start_matches(ws_es).chars().collect();
     match scan_decimal(&cs) {
         Some((_, v)) => SN::Num(v),
         None => SN::Num(f64::NAN),
